@@ -14,7 +14,7 @@ from ..resolve import callgraph
 DS = "_modify.delete_symbols."
 
 
-@rule("C19.1", ["C19", "C05"], "every aux table that can mention a symbol has a deletion helper (key and value side)", 8)
+@rule("C19.1", ["C19", "C05", "C06"], "every aux table that can mention a symbol has a deletion helper (key and value side)", 8)
 def c19_1(ctx: Ctx):
     repo = ctx.repo
     defs = aux.table_defs(repo)
